@@ -46,6 +46,14 @@ def run_impl(xs, start, stop, step, err=False, via="getitem"):
     return (out, "".join(term))
 
 
+FALSY = [None, 0, "", False, (), 0.0, None, []]
+
+
+def same_elems(a, b):
+    """element-wise identity of type and value (0 == False == 0.0 in Python)"""
+    return len(a) == len(b) and all(type(x) is type(y) and x == y for x, y in zip(a, b))
+
+
 def index_readings_agree(n, i):
     """list[i] and list[i:i+1] denote the same single element"""
     return -n <= i < n and i != -1
@@ -129,6 +137,19 @@ def run(chk):
                               size=n * 100 + abs(s or 0) + abs(e or 0) + abs(k or 0))
             if exp and exp != xs:
                 seen_nontrivial.add((n, s, e, k))
+            if n:
+                # the slice never looks at the elements: the same positions of a source of falsy values / None
+                # (a sentinel or truthiness test on an element inside one of the composed operators shows here)
+                ys = [FALSY[(i + n) % len(FALSY)] for i in range(n)]
+                r4 = run_impl(ys, s, e, k, via="pipe" if (n + len(gal)) % 2 else "getitem")
+                chk.cov["evaluations"] += 1
+                hist["falsy_sources"] = hist.get("falsy_sources", 0) + 1
+                if r4[0] == "raise" or not same_elems(r4[0], ys[s:e:k]) or r4[1] != "C":
+                    chk.violation(f"slice-falsy-elements|{sig_in}",
+                                  {"input": {"falsy_source_len": n, "source": repr(ys), "start": s, "stop": e, "step": k},
+                                   "implementation": repr(r4), "expected": repr([ys[s:e:k], "C"]),
+                                   "oracle": "list(source)[start:stop:step] then completion, whatever the elements are"},
+                                  size=n * 100 + abs(s or 0) + abs(e or 0) + abs(k or 0))
             # errors pass through: a source failing after xs
             if n <= 3:
                 r3 = run_impl(xs, s, e, k, err=True)
@@ -239,6 +260,18 @@ def replay(chk, path):
         r = run_impl(xs, i, None, None, err=err, via="index")
         print("input", inp, "implementation", r, "accepted", index_accepted(xs, i))
         ok = index_ok(xs, i, r, err)
+        if not ok:
+            print(f"VIOLATION property=C07 replay={path}")
+        return 0 if ok else 1
+    if isinstance(inp, dict) and "falsy_source_len" in inp:
+        n = inp["falsy_source_len"]
+        ys = [FALSY[(i + n) % len(FALSY)] for i in range(n)]
+        exp = ys[inp["start"]:inp["stop"]:inp["step"]]
+        ok = True
+        for via in ("getitem", "pipe"):
+            r = run_impl(ys, inp["start"], inp["stop"], inp["step"], via=via)
+            print("source", repr(ys), "via", via, "implementation", repr(r), "list slice", repr(exp))
+            ok = ok and r[0] != "raise" and same_elems(r[0], exp) and r[1] == "C"
         if not ok:
             print(f"VIOLATION property=C07 replay={path}")
         return 0 if ok else 1
